@@ -97,7 +97,9 @@ static struct rtg *G;
 void (*rt_on_acquire) (void *mu, int writer, int tid);
 void (*rt_on_release) (void *mu, int writer, int tid);
 void (*rt_on_access) (void *addr, int size, int is_write, int tid);
+int (*rt_client_gate) (int tid);
 extern int rt_exit_is_step;
+extern int rt_no_exit_dest;
 int rt_sem_single_step = 1;
 int rt_binary_sem = 0;
 FILE *rt_log;
@@ -211,6 +213,7 @@ void *rt_malloc (size_t n) {
 	return p;
 }
 static void hb_free_write (const char *p, size_t n);
+static void hb_atomic (int kind, const void *a, int mo, int fmo, int ok);
 void rt_free (void *p) {
 	struct blk *b;
 	if (p == NULL) return;
@@ -388,7 +391,7 @@ static void park (int kind, void *addr, uint32_t a, uint32_t b, int mo, int fmo,
 static void trampoline (int idx) {
 	struct fiber *f = &G->f[idx];
 	f->fn (f->arg);
-	if (f->tls_waiter && f->tls_dest) {
+	if (f->tls_waiter && f->tls_dest && !rt_no_exit_dest) {
 		if (rt_exit_is_step) park (OP_EXIT, NULL, 0, 0, 0, 0, "exit");
 		f->noyield++;
 		f->tls_dest (f->tls_waiter);
@@ -443,6 +446,7 @@ int rt_enabled (int t) {
 		if (f->pend.kind == OP_SEMPD) return *(volatile int *) f->pend.addr > 0 || (f->pend_timed && expired (f->pend_sec, f->pend_nsec));
 		if (f->pend.kind == OP_LOCK) { extern int rt_ideal_can_lock (void *mu, int mode, int tid) __attribute__ ((weak));
 			return rt_ideal_can_lock ? rt_ideal_can_lock (f->pend.addr, (int) f->pend.a, t) : 1; }
+		if (f->pend.kind == OP_CLIENT && rt_client_gate) return rt_client_gate (t);
 		return 1;
 	}
 	if (f->state == F_BLOCKED) return f->woken || f->fault || (f->blk_timed && expired (f->blk_sec, f->blk_nsec));
@@ -460,6 +464,16 @@ void rt_grant_choice (int t, int choice) {
 void rt_grant (int t) { rt_grant_choice (t, 0); }
 void rt_fault_futex (int t, int err) { if (G->f[t].state == F_BLOCKED) { G->f[t].fault = 1; G->f[t].fault_err = err; } }
 void rt_track_stack_frames (int on) { G->track_stack = on; }
+/* is some thread in a timed wait whose deadline is still ahead (so that advancing the clock can make progress)? */
+int rt_timed_waiter_pending (void) {
+	int i;
+	for (i = 0; i < G->nf; i++) {
+		struct fiber *f = &G->f[i];
+		if (f->state == F_PARKED && f->pend.kind == OP_SEMPD && f->pend_timed && !expired (f->pend_sec, f->pend_nsec)) return 1;
+		if (f->state == F_BLOCKED && f->blk_timed && !expired (f->blk_sec, f->blk_nsec)) return 1;
+	}
+	return 0;
+}
 void rt_dead_mark (const void *p, size_t n, int owner, const char *what) {
 	if (G->ndead < 16) { G->dead[G->ndead].p = p; G->dead[G->ndead].n = n; G->dead[G->ndead].owner = owner; snprintf (G->dead[G->ndead].what, sizeof G->dead[0].what, "%s", what); G->ndead++; }
 }
@@ -468,6 +482,11 @@ void rt_dead_clear (int owner) { int i, j = 0; for (i = 0; i < G->ndead; i++) if
 void rt_point (const char *tag) { park (OP_CLIENT, NULL, 0, 0, 0, 0, tag); }
 int rt_choose (const char *tag) { park (OP_CLIENT, NULL, 0, 0, 0, 0, tag); return G->cur ? G->cur->choice : 0; }
 void rt_region_begin (int kind, void *addr, const char *tag) { park (kind, addr, 0, 0, 0, 0, tag); if (G->cur) G->cur->noyield++; }
+void rt_region_begin2 (int kind, void *addr, const char *tag, unsigned a) { park (kind, addr, a, 0, 0, 0, tag); if (G->cur) G->cur->noyield++; }
+/* ideal-lock happens-before edges (L2): acquire joins the lock's clock, release publishes the holder's */
+void rt_hb_lock_acquire (const void *mu) { hb_atomic (OP_LD, mu, 2, 0, 1); }
+void rt_hb_lock_release (const void *mu) { hb_atomic (OP_RMW, mu, 3, 0, 1); }
+int rt_no_exit_dest = 0;
 void rt_region_end (void) { if (G->cur) G->cur->noyield--; }
 void rt_noyield_begin (void) { if (G->cur) G->cur->noyield++; }
 void rt_noyield_end (void) { if (G->cur) G->cur->noyield--; }
